@@ -25,14 +25,12 @@ import (
 
 // Server is a running GCA server plus what the harness needs to talk to it.
 type Server struct {
-	S      *server.GCAServer
-	Dir    string
-	HTTP   uint16
-	TCP    uint16
-	UDP    uint16
-	client *http.Client
-	tr     *http.Transport
-	udp    *net.UDPConn
+	S    *server.GCAServer
+	Dir  string
+	HTTP uint16
+	TCP  uint16
+	UDP  uint16
+	udp  *net.UDPConn
 }
 
 // ScratchRoot is where data directories are created.
@@ -94,12 +92,7 @@ func StartServer(dir string) (srv *Server, err error) {
 		return nil, err
 	}
 	h, t, u := g.Ports()
-	// No keep-alive: the server closes idle connections after ReadTimeout
-	// (2.5 s in this build), and Go's client does not retry a POST that hits a
-	// connection the server closed at that very moment - which would look like
-	// "no response" (observed once under load in a C07 batch).
-	tr := &http.Transport{DisableKeepAlives: true}
-	srv = &Server{S: g, Dir: dir, HTTP: h, TCP: t, UDP: u, tr: tr, client: &http.Client{Transport: tr, Timeout: 180 * time.Second}}
+	srv = &Server{S: g, Dir: dir, HTTP: h, TCP: t, UDP: u}
 	return srv, nil
 }
 
@@ -110,7 +103,6 @@ func (s *Server) Close() (err error) {
 		s.udp.Close()
 		s.udp = nil
 	}
-	s.tr.CloseIdleConnections()
 	done := make(chan error, 1)
 	go func() {
 		defer func() {
@@ -139,7 +131,6 @@ func (s *Server) Abandon() {
 		s.udp.Close()
 		s.udp = nil
 	}
-	s.tr.CloseIdleConnections()
 	s.S.VerifStop()
 }
 
@@ -186,6 +177,29 @@ func (s *Server) url(path string) string {
 	return fmt.Sprintf("http://127.0.0.1:%d%s", s.HTTP, path)
 }
 
+// HTTPOnce sends one request on a connection of its own and returns status
+// and body. Two things are avoided on purpose. (1) Reuse of a kept-alive
+// connection: the server closes idle connections after ReadTimeout (2.5 s in
+// this build) and Go's client does not retry a POST that hits a connection
+// closed at that very moment, which would look like "no response" (observed
+// once under load in a C07 batch). (2) "Connection: close" on the request
+// (DisableKeepAlives): net/http then does not drain an unread request body
+// before closing, and the resulting TCP reset can reach the client before it
+// has finished writing a large body (observed with a 200 kB body in C12).
+// Neither is a matter of the server under test.
+func HTTPOnce(req *http.Request, timeout time.Duration) (int, []byte, error) {
+	tr := &http.Transport{MaxIdleConns: 1}
+	defer tr.CloseIdleConnections()
+	c := &http.Client{Transport: tr, Timeout: timeout}
+	resp, err := c.Do(req)
+	if err != nil {
+		return 0, nil, err
+	}
+	defer resp.Body.Close()
+	b, err := io.ReadAll(resp.Body)
+	return resp.StatusCode, b, err
+}
+
 // Do performs an HTTP request and returns status and body.
 func (s *Server) Do(method, path string, body []byte) (int, []byte, error) {
 	req, err := http.NewRequest(method, s.url(path), bytes.NewReader(body))
@@ -199,14 +213,7 @@ func (s *Server) Do(method, path string, body []byte) (int, []byte, error) {
 	var b []byte
 	var rerr error
 	ok := DoActive(20*time.Second, func() {
-		resp, err := s.client.Do(req)
-		if err != nil {
-			rerr = err
-			return
-		}
-		defer resp.Body.Close()
-		b, rerr = io.ReadAll(resp.Body)
-		st = resp.StatusCode
+		st, b, rerr = HTTPOnce(req, 180*time.Second)
 	})
 	if !ok {
 		return 0, nil, fmt.Errorf("timeout: no response to %s %s within 20 s of active time", method, path)
